@@ -63,7 +63,7 @@ Inductive Case :=
 | LhNoop (misbehaviour : bool) (out : Outcome) (unchanged : bool)
 | SmSignBytes (seq ts : N) (div path data enc : bytes)
 | SmHeaderData (pk : option bytes) (div enc : bytes)
-| SoloHistory (init : SmState) (sigs : list (bytes * (bytes * bytes))) (ops : list Solo.Op) (obs : list (Outcome * SmState))
+| SoloHistory (init : SmState) (sigs : list (bytes * (bytes * bytes))) (malformed : list bytes) (ops : list Solo.Op) (obs : list (Outcome * SmState))
 | AttVerifySigs (attestors : list bytes) (minsigs : N) (data : bytes) (sigs : list bytes) (tag : N)
                 (rec : list (bytes * (bytes * option bytes))) (ok : bool)
 | AttHistory (init : AttState)
@@ -85,7 +85,8 @@ Definition check (c : Case) : bool :=
       bool_eqb (lh_check_for_misbehaviour localhost_id []) misbehaviour && outcome_eqb out Ok && unchanged
   | SmSignBytes seq ts div path data enc => bytes_eqb (sign_bytes_enc seq ts div path data) enc
   | SmHeaderData pk div enc => bytes_eqb (header_data_enc pk div) enc
-  | SoloHistory init sigs ops obs => all2 solo_obs_eqb (trace (table_sig_ok sigs) init ops) obs
+  | SoloHistory init sigs malformed ops obs =>
+      all2 solo_obs_eqb (trace (table_sig_ok sigs) (fun s => Attest.mem s malformed) init ops) obs
   | AttVerifySigs attestors minsigs data sigs tag rec ok =>
       bool_eqb (verify_signatures sha256 (opt_addr rec) attestors minsigs data sigs (ascii_of_N tag)) ok
   | AttHistory init rec kec decp decs ops obs =>
